@@ -269,6 +269,9 @@ class TaskCoordinator:
                             process_completed_tasks()
                     except KeyboardInterrupt:
                         logger.info('Terminating running tasks.')
+                        # The first interrupt's cancel() may not have
+                        # been reached or completed.
+                        runner.cancel()
                         runner.stop()
                         # Process completed tasks one last time after
                         # tasks have been killed.
